@@ -11,6 +11,10 @@ package main
 //      (shared with C05 T7); the octree's distance cache is allocated fresh
 //      per render and its lattice→world map is origin + index·resolution
 //  V4  lattice sizing of the uniform renderer: inc·steps ≡ box size
+//  V6  uniform renderers: the layer cache samples lattice point (x, j, k) at base + (x, j, k)∘inc
+//      and the marching loop puts corner 0 of cell (x, y, z) at the same place, the cell
+//      spanning inc on every axis - axis by axis (a step taken from another axis' increment
+//      samples the field at one place and draws it at another)
 //  V5  layerYZ.Evaluate: every batch send is preceded by wg.Add(1), followed
 //      on every path to return by wg.Wait(); after a send the output window
 //      advances by exactly the batch size that triggered it and the point
@@ -69,6 +73,7 @@ func checkC06(ctx *Ctx, r *Report, tier string) {
 			r.check("V3", "marchingCubes|value-k-sampled-at-corner-k", cm.pos, validBits(cm.bits, 3) && fmt.Sprint(cm.bits) == fmt.Sprint(cm.valBits), "corner offsets "+bitsString(cm.bits)+" vs sample offsets "+bitsString(cm.valBits))
 		}
 		latticeSizing(ctx, r, ufn, "newLayerYZ", 3)
+		sampleLattice(ctx, r, "V6", ufn, "newLayerYZ", "Evaluate", "mcToTriangles", 3)
 	} else {
 		r.undecided("V3", "marchingCubes", 0, "not found")
 	}
@@ -79,6 +84,7 @@ func checkC06(ctx *Ctx, r *Report, tier string) {
 			r.check("V3", "marchingSquares|value-k-sampled-at-corner-k", cm.pos, validBits(cm.bits, 2) && fmt.Sprint(cm.bits) == fmt.Sprint(cm.valBits), "corner offsets "+bitsString(cm.bits)+" vs sample offsets "+bitsString(cm.valBits))
 		}
 		latticeSizing(ctx, r, ufn, "newLineCache", 2)
+		sampleLattice(ctx, r, "V6", ufn, "newLineCache", "evaluate", "msToLines", 2)
 	}
 	for _, t := range []struct {
 		fn, kernel string
@@ -105,6 +111,7 @@ func checkC06(ctx *Ctx, r *Report, tier string) {
 	}
 	r.floor("V3", 8)
 	r.floor("V4", 2)
+	r.floor("V6", 4)
 
 	// V5
 	if lfn := ctx.ssaFunc("render", "(*layerYZ).Evaluate"); lfn != nil {
@@ -122,7 +129,7 @@ func checkC06(ctx *Ctx, r *Report, tier string) {
 	} else {
 		r.undecided("V5", "evalRoutines", 0, "not found")
 	}
-	r.floor("V5", 6)
+	r.floor("V5", 3)
 }
 
 // interpSnap: V1.
@@ -305,13 +312,15 @@ func cacheEvaluate(ctx *Ctx, r *Report, name string, dim int) {
 		r.undecided("V3", name, 0, "not found")
 		return
 	}
-	ev := newEval(ctx, "read", "write")
+	// read/write helpers (if any) are inlined: the rule looks at the map operations themselves
+	ev := newEval(ctx)
 	res, _ := ev.evalRoot(fn)
 	tup, _ := res.(*Tuple)
 	if tup == nil || len(tup.Elems) != 2 {
 		r.undecided("V3", name, fn.Pos(), "unexpected result "+valKey(res))
 		return
 	}
+	recvN, viN := paramName(fn, 0), paramName(fn, 1)
 	pos := map[string]*Term{}
 	leafTerms("", tup.Elems[0], pos)
 	ok := len(pos) == dim
@@ -322,51 +331,76 @@ func cacheEvaluate(ctx *Ctx, r *Report, name string, dim int) {
 			ok = false
 			continue
 		}
-		want := Add(A("dc.origin"+comp), Mul(Conv("float64", A("vi"+comp)), A("dc.resolution")))
+		want := Add(A(recvN+".origin"+comp), Mul(Conv("float64", A(viN+comp)), A(recvN+".resolution")))
 		if !equalRat(stripConv(t), stripConv(want)) {
 			ok = false
 			detail += fmt.Sprintf(" %s: %s;", comp, shortKey(t.Key(), 120))
 		}
 	}
 	r.check("V3", name+"|lattice-to-world-map", fn.Pos(), ok, "position ≡ origin + index·resolution;"+detail)
-	// distance: either read(vi) or s.Evaluate(position); written under the same key
+	// distance: the value cached under vi, or s.Evaluate(position) which is then stored under vi
 	d, _ := tup.Elems[1].(*Term)
 	okD := d != nil
-	if okD {
-		evs := findSub(d, func(x *Term) bool { return x.Op == "call" && strings.HasSuffix(x.S, ".Evaluate") })
-		rds := findSub(d, func(x *Term) bool { return x.Op == "call" && strings.Contains(x.S, ".read#0") })
-		okD = len(evs) == 1 && len(rds) == 1
-		if okD {
-			// Evaluate argument is the returned position
-			a := evs[0].Args[len(evs[0].Args)-1]
-			okD = a.Op == "agg" && len(a.Args) == dim
-			for i, comp := range []string{".X", ".Y", ".Z"}[:dim] {
-				if okD && a.Args[i].Key() != pos[comp].Key() {
-					okD = false
-				}
+	keyIsVi := func(k Val) bool {
+		if sy, isSym := k.(*Sym); isSym {
+			k = materialise(sy)
+		}
+		kt := valTerm(k)
+		if kt.Op != "agg" || len(kt.Args) != dim {
+			return false
+		}
+		for i, comp := range []string{".X", ".Y", ".Z"}[:dim] {
+			if kt.Args[i].Key() != viN+comp {
+				return false
 			}
-			// read key is vi
-			ra := rds[0].Args[len(rds[0].Args)-1]
-			for i, comp := range []string{".X", ".Y", ".Z"}[:dim] {
-				if okD && (ra.Op != "agg" || ra.Args[i].Key() != "vi"+comp) {
+		}
+		return true
+	}
+	var evalCall *Term
+	if okD {
+		nLook, nEval := 0, 0
+		for _, lf := range iteLeaves(d) {
+			switch {
+			case lf.Op == "call" && strings.HasSuffix(lf.S, ".Evaluate"):
+				nEval++
+				evalCall = lf
+				a := lf.Args[len(lf.Args)-1]
+				if a.Op != "agg" || len(a.Args) != dim {
 					okD = false
+					break
 				}
+				for i, comp := range []string{".X", ".Y", ".Z"}[:dim] {
+					if a.Args[i].Key() != pos[comp].Key() {
+						okD = false
+					}
+				}
+			case lf.Op == "a" && strings.HasPrefix(lf.S, "lookup("):
+				nLook++
+			default:
+				okD = false
+			}
+		}
+		okD = okD && nLook >= 1 && nEval >= 1
+	}
+	nl := 0
+	for _, e := range ev.Events {
+		if e.Callee == "maplookup" {
+			nl++
+			if !keyIsVi(e.Args[1]) {
+				okD = false
 			}
 		}
 	}
+	okD = okD && nl >= 1
 	wOK := false
-	for _, w := range eventsOf(ev, ".write") {
-		if len(w.Args) == 3 {
-			k := valTerm(w.Args[1])
-			v, _ := w.Args[2].(*Term)
-			if k.Op == "agg" && v != nil && strings.HasSuffix(v.S, ".Evaluate") {
-				wOK = true
-				for i, comp := range []string{".X", ".Y", ".Z"}[:dim] {
-					if k.Args[i].Key() != "vi"+comp {
-						wOK = false
-					}
-				}
-			}
+	for _, w := range ev.Events {
+		if w.Callee != "mapupdate" || len(w.Args) != 3 {
+			continue
+		}
+		v, _ := w.Args[2].(*Term)
+		wOK = keyIsVi(w.Args[1]) && v != nil && evalCall != nil && v.Key() == evalCall.Key()
+		if !wOK {
+			break
 		}
 	}
 	r.check("V3", name+"|distance-is-evaluated-at-that-position-or-cached-under-its-index", fn.Pos(), okD && wOK, "distance = cache[vi] if present else s.Evaluate(origin+vi·res), stored under vi; term: "+shortKey(valKey(tup.Elems[1]), 200))
@@ -458,40 +492,146 @@ func isFreshSlice(v ssa.Value) bool {
 	return false
 }
 
-func batchProtocol(ctx *Ctx, r *Report, fn *ssa.Function, label string) {
-	var sends []*ssa.Send
-	allInstrs(fn, func(b *ssa.BasicBlock, ins ssa.Instruction) {
-		if s, ok := ins.(*ssa.Send); ok {
-			sends = append(sends, s)
-		}
-	})
-	if len(sends) == 0 {
-		r.undecided("V5", label, fn.Pos(), "no channel send found")
-		return
-	}
-	r.Counts["batch_sends"] += len(sends)
-	for i, s := range sends {
-		key := fmt.Sprintf("%s|send#%d", label, i+1)
-		// Add(1) before, same block
-		added := false
-		for j := 0; j < instrIndex(s); j++ {
-			if isWaitGroupCall(s.Block().Instrs[j], "Add") {
-				c := s.Block().Instrs[j].(*ssa.Call)
+// batchSite is one place where a batch request is handed to the workers: a channel send in
+// the function itself, or a call of a module helper that (on its only path) does
+// wg.Add(1) and sends its parameter.
+type batchSite struct {
+	ins   ssa.Instruction
+	req   ssa.Value // the request value sent / passed
+	added bool      // wg.Add(1) precedes the send (here or in the helper)
+}
+
+func batchSites(fn *ssa.Function) []batchSite {
+	var out []batchSite
+	addBefore := func(blk *ssa.BasicBlock, upto int) bool {
+		for j := 0; j < upto; j++ {
+			if isWaitGroupCall(blk.Instrs[j], "Add") {
+				c := blk.Instrs[j].(*ssa.Call)
 				if n, ok := constInt(c.Call.Args[1]); ok && n == 1 {
-					added = true
+					return true
 				}
 			}
 		}
-		r.check("V5", key+"|add-1-before-send", s.Pos(), added, "wg.Add(1) must precede the send of a batch in the same block")
+		return false
+	}
+	allInstrs(fn, func(b *ssa.BasicBlock, ins ssa.Instruction) {
+		switch x := ins.(type) {
+		case *ssa.Send:
+			out = append(out, batchSite{ins: x, req: x.X, added: addBefore(b, instrIndex(x))})
+		case *ssa.Call:
+			h := x.Call.StaticCallee()
+			if h == nil || !inModule(h) || len(h.Blocks) != 1 || x.Call.IsInvoke() {
+				return
+			}
+			for i, ins2 := range h.Blocks[0].Instrs {
+				sd, ok := ins2.(*ssa.Send)
+				if !ok {
+					continue
+				}
+				// the helper sends one of its parameters (possibly re-loaded from its spill slot)
+				for pi, prm := range h.Params {
+					if pi < len(x.Call.Args) && sentIsParam(sd.X, prm) {
+						out = append(out, batchSite{ins: x, req: x.Call.Args[pi], added: addBefore(h.Blocks[0], i)})
+					}
+				}
+			}
+		}
+	})
+	return out
+}
+
+func sentIsParam(v ssa.Value, prm *ssa.Parameter) bool {
+	if v == ssa.Value(prm) {
+		return true
+	}
+	// load of the alloc the parameter was spilled to
+	if ld, ok := v.(*ssa.UnOp); ok && ld.Op == token.MUL {
+		if al, ok := ld.X.(*ssa.Alloc); ok {
+			for _, ref := range *al.Referrers() {
+				if st, ok := ref.(*ssa.Store); ok && st.Addr == ssa.Value(al) && st.Val == ssa.Value(prm) {
+					return true
+				}
+			}
+		}
+	}
+	return false
+}
+
+// reqComponent finds how field `name` of the request is held at the site: as a field of a
+// local request struct that lives across iterations (base != nil), or as the SSA value stored
+// into a request literal built for this send (val != nil).
+func reqComponent(site batchSite, name string) (base ssa.Value, val ssa.Value) {
+	ld, _ := site.req.(*ssa.UnOp)
+	if ld == nil || ld.Op != token.MUL {
+		return nil, nil
+	}
+	al, _ := ld.X.(*ssa.Alloc)
+	if al == nil {
+		return nil, nil
+	}
+	st, ok := al.Type().Underlying().(*types.Pointer).Elem().Underlying().(*types.Struct)
+	if !ok {
+		return nil, nil
+	}
+	// a literal built right before the send: every field store is in the send's block
+	var stored ssa.Value
+	allInBlock, n := true, 0
+	for _, ref := range *al.Referrers() {
+		fa, ok := ref.(*ssa.FieldAddr)
+		if !ok {
+			continue
+		}
+		for _, r2 := range *fa.Referrers() {
+			if sto, ok := r2.(*ssa.Store); ok && sto.Addr == ssa.Value(fa) {
+				n++
+				if sto.Block() != site.ins.Block() {
+					allInBlock = false
+				}
+				if st.Field(fa.Field).Name() == name {
+					stored = sto.Val
+				}
+			}
+		}
+	}
+	if al.Comment == "complit" && allInBlock && n > 0 {
+		return nil, stored
+	}
+	return al, nil
+}
+
+// phiFedBy: v is a phi (possibly through other phis) one of whose incoming values is `in`.
+func phiFedBy(v ssa.Value, in ssa.Value, depth int, seen map[ssa.Value]bool) bool {
+	if depth > 6 || seen[v] {
+		return false
+	}
+	seen[v] = true
+	phi, ok := v.(*ssa.Phi)
+	if !ok {
+		return false
+	}
+	for _, e := range phi.Edges {
+		if e == in || phiFedBy(e, in, depth+1, seen) {
+			return true
+		}
+	}
+	return false
+}
+
+func batchProtocol(ctx *Ctx, r *Report, fn *ssa.Function, label string) {
+	sites := batchSites(fn)
+	if len(sites) == 0 {
+		r.undecided("V5", label, fn.Pos(), "no channel send found")
+		return
+	}
+	r.Counts["batch_sends"] += len(sites)
+	for i, site := range sites {
+		s := site.ins
+		key := fmt.Sprintf("%s|send#%d", label, i+1)
+		r.check("V5", key+"|add-1-before-send", s.Pos(), site.added, "wg.Add(1) must precede the send of a batch (in the same block, or inside the sending helper)")
 		waits := everyPathHits(s, func(x ssa.Instruction) bool { return isWaitGroupCall(x, "Wait") })
 		r.check("V5", label+"|wait-after-every-send|"+fmt.Sprint(i+1), s.Pos(), waits, "every path from a batch send to return must pass wg.Wait(): the caller reads the layer afterwards")
 		// in-loop sends: window shift and fresh buffer
 		inLoop := false
-		for _, b2 := range fn.Blocks {
-			if b2.Dominates(s.Block()) || true {
-				_ = b2
-			}
-		}
 		reach := reachableFrom(s.Block())
 		for _, p := range s.Block().Preds {
 			if reach[p] {
@@ -504,17 +644,7 @@ func batchProtocol(ctx *Ctx, r *Report, fn *ssa.Function, label string) {
 		if !inLoop {
 			continue
 		}
-		// the sent value is a load of a local struct
-		ld, _ := s.X.(*ssa.UnOp)
-		var base ssa.Value
-		if ld != nil && ld.Op == token.MUL {
-			base = ld.X
-		}
-		if base == nil {
-			r.undecided("V5", key, s.Pos(), "sent value is not a load of a local request struct")
-			continue
-		}
-		// guard len(req.p) == K
+		// guard len(points) == K
 		var K int64 = -1
 		for _, g := range branchGuards(s.Block()) {
 			if bo, ok := g.cond.(*ssa.BinOp); ok && g.val && bo.Op == token.EQL {
@@ -526,18 +656,79 @@ func batchProtocol(ctx *Ctx, r *Report, fn *ssa.Function, label string) {
 			}
 		}
 		r.check("V5", key+"|sent-when-buffer-has-K-points", s.Pos(), K > 0, fmt.Sprintf("send guarded by len(points) == K, K=%d", K))
-		outSt := fieldStoresAfter(s, base, "out")
-		shiftOK := false
-		if len(outSt) == 1 {
-			if sl, ok := outSt[0].Val.(*ssa.Slice); ok && sl.High == nil && sl.Low != nil {
-				if n, ok := constInt(sl.Low); ok && n == K {
-					shiftOK = true
+		outBase, outVal := reqComponent(site, "out")
+		pBase, pVal := reqComponent(site, "p")
+		if outBase == nil && outVal == nil {
+			r.undecided("V5", key, s.Pos(), "the request sent is neither a local request struct nor a literal built for the send")
+			continue
+		}
+		shiftOK, fresh := false, false
+		if outBase != nil {
+			// the request struct lives across iterations: its fields are re-bound after the send
+			outSt := fieldStoresAfter(s, outBase, "out")
+			if len(outSt) == 1 {
+				if sl, ok := outSt[0].Val.(*ssa.Slice); ok && sl.High == nil && sl.Low != nil {
+					if n, ok := constInt(sl.Low); ok && n == K {
+						shiftOK = true
+					}
+				}
+			}
+			pSt := fieldStoresAfter(s, pBase, "p")
+			fresh = len(pSt) == 1 && isFreshSliceDeep(pSt[0].Val, 2)
+		} else {
+			// the components are locals: after the send, in the same block, out[K:] and a fresh
+			// point slice are computed and feed the loop-carried variables
+			blk := s.Block()
+			// the point buffer sent is the loop-carried slice, possibly after this iteration's append
+			for k := 0; k < 3; k++ {
+				if ap, ok := pVal.(*ssa.Call); ok {
+					if bi, ok := ap.Call.Value.(*ssa.Builtin); ok && bi.Name() == "append" {
+						pVal = ap.Call.Args[0]
+						continue
+					}
+				}
+				break
+			}
+			// the output window may be held as an offset into the layer: out = vals[sent:]
+			var sentOff ssa.Value
+			if sl, ok := outVal.(*ssa.Slice); ok && sl.High == nil && sl.Low != nil {
+				if _, isPhi := sl.Low.(*ssa.Phi); isPhi {
+					sentOff = sl.Low
+				}
+			}
+			for j := instrIndex(s) + 1; j < len(blk.Instrs); j++ {
+				if bo, ok := blk.Instrs[j].(*ssa.BinOp); ok && sentOff != nil && bo.Op == token.ADD {
+					var other ssa.Value
+					if bo.X == sentOff {
+						other = bo.Y
+					} else if bo.Y == sentOff {
+						other = bo.X
+					}
+					if other != nil {
+						if n, ok := constInt(other); ok && n == K && phiFedBy(sentOff, bo, 0, map[ssa.Value]bool{}) {
+							shiftOK = true
+						}
+					}
+				}
+				switch y := blk.Instrs[j].(type) {
+				case *ssa.Slice:
+					if y.X == outVal && y.High == nil && y.Low != nil {
+						if n, ok := constInt(y.Low); ok && n == K && phiFedBy(outVal, y, 0, map[ssa.Value]bool{}) {
+							shiftOK = true
+						}
+					}
+					// make([]T, 0, const) is a slice of a new array
+					if pVal != nil && isFreshSlice(y) && phiFedBy(pVal, y, 0, map[ssa.Value]bool{}) {
+						fresh = true
+					}
+				case *ssa.MakeSlice:
+					if pVal != nil && phiFedBy(pVal, y, 0, map[ssa.Value]bool{}) {
+						fresh = true
+					}
 				}
 			}
 		}
 		r.check("V5", key+"|output-window-advances-by-batch-size", s.Pos(), shiftOK, fmt.Sprintf("after the send: out = out[K:] with the same K=%d that triggered it", K))
-		pSt := fieldStoresAfter(s, base, "p")
-		fresh := len(pSt) == 1 && isFreshSlice(pSt[0].Val)
 		r.check("V5", label+"|fresh-point-buffer|"+fmt.Sprint(i+1), s.Pos(), fresh, "after the send the point buffer must be a new slice (the worker still reads the sent one)")
 	}
 }
@@ -644,4 +835,175 @@ func everyPathHitsOrBack(from ssa.Instruction, back *ssa.BasicBlock, hit func(ss
 		return true
 	}
 	return walk(from.Block(), instrIndex(from)+1)
+}
+
+// ---------------------------------------------------------------- V6
+
+// resolveRec reduces a coordinate that is carried through loops to (origin, increment): a cell
+// that does not change in its loop is what it was initialised with; a cell advanced by
+// `c += d` (d loop invariant) starts at its initial value and moves by d per iteration.
+func resolveRec(t *Term, depth int) (origin, inc *Term) {
+	if t == nil || t.Op != "a" || !strings.HasPrefix(t.S, "μ") || depth > 8 {
+		return t, nil
+	}
+	rc := recs[t.S]
+	if rc == nil {
+		return t, nil
+	}
+	if rc.Step.Key() == rc.Init.Key() {
+		return resolveRec(rc.Init, depth+1)
+	}
+	isMu := func(x *Term) bool { return x.Op == "a" && strings.HasPrefix(x.S, "μ") }
+	for _, at := range findSub(rc.Step, isMu) {
+		a := at.S
+		r2 := recs[a]
+		if r2 == nil || r2.Init.Key() != rc.Init.Key() || r2.Step.Key() != rc.Step.Key() {
+			continue
+		}
+		d := Sub(rc.Step, A(a))
+		if len(findSub(d, isMu)) > 0 {
+			return t, nil
+		}
+		o, oi := resolveRec(rc.Init, depth+1)
+		if oi != nil {
+			return t, nil // an origin that itself moves: not a lattice along one axis
+		}
+		return o, d
+	}
+	return t, nil
+}
+
+// pointTerms: the components of a vector value, when they are scalar terms.
+func pointTerms(v Val, dim int) []*Term {
+	if s, ok := v.(*Sym); ok {
+		v = materialise(s)
+	}
+	ag, _ := v.(*Agg)
+	if ag == nil || len(ag.Elems) != dim {
+		return nil
+	}
+	var out []*Term
+	for _, e := range ag.Elems {
+		t, ok := e.(*Term)
+		if !ok {
+			return nil
+		}
+		out = append(out, t)
+	}
+	return out
+}
+
+func sampleLattice(ctx *Ctx, r *Report, rule string, march *ssa.Function, ctor, method, kernel string, dim int) {
+	axes := []string{"X", "Y", "Z"}[:dim]
+	// (a) the layer cache: positions handed to the shape's Evaluate
+	cfn := ctx.ssaFunc("render", ctor)
+	if cfn == nil || len(cfn.Params) < 2 {
+		r.undecided(rule, ctor, 0, "layer cache constructor not found")
+		return
+	}
+	alts, _ := ctorAlts(ctx, cfn)
+	if len(alts) != 1 {
+		r.undecided(rule, ctor, cfn.Pos(), "layer cache constructor does not build one object")
+		return
+	}
+	_, ev, err := composeMethod(ctx, alts[0], method, "evalRoutines")
+	if err != nil || ev.Exceeded {
+		r.undecided(rule, ctor+"."+method, cfn.Pos(), fmt.Sprintf("cannot evaluate the layer method: %v", err))
+		return
+	}
+	m := methodOf(ctx, alts[0].typ, method)
+	baseN, incN, xN := paramName(cfn, 0), paramName(cfn, 1), paramName(m, len(m.Params)-1)
+	var samples [][]*Term
+	for _, e := range ev.Events {
+		switch {
+		case strings.HasSuffix(e.Callee, ".Evaluate"):
+			for _, a := range e.Args {
+				if pt := pointTerms(a, dim); pt != nil {
+					samples = append(samples, pt)
+				}
+			}
+		case e.Callee == "append":
+			for _, v := range appendedVals(e) {
+				if pt := pointTerms(v, dim); pt != nil {
+					samples = append(samples, pt)
+				}
+			}
+		}
+	}
+	key := typeShort(alts[0].typ) + "." + method
+	if len(samples) == 0 {
+		r.undecided(rule, key, m.Pos(), "no sample position found (neither a direct Evaluate call nor a point appended to a batch)")
+		return
+	}
+	okA, detail := true, ""
+	for _, pt := range samples {
+		for i, ax := range axes {
+			b, d := A(baseN+"."+ax), A(incN+"."+ax)
+			o, inc := resolveRec(pt[i], 0)
+			good := false
+			if inc == nil {
+				good = equalRat(stripConv(o), stripConv(Add(b, Mul(Conv("float64", A(xN)), d))))
+			} else {
+				good = equalRat(o, b) && equalRat(inc, d)
+			}
+			if !good {
+				okA = false
+				is := "-"
+				if inc != nil {
+					is = shortKey(inc.Key(), 60)
+				}
+				detail += fmt.Sprintf(" axis %s: starts at %s, advances by %s (expected %s and %s);", ax, shortKey(o.Key(), 80), is, b.Key(), d.Key())
+			}
+		}
+	}
+	r.check(rule, key+"|samples-lattice-points-axis-by-axis", m.Pos(), okA, fmt.Sprintf("%d sample position(s): coordinate A is base.A + index·inc.A;%s", len(samples), detail))
+
+	// (b) the marching loop: corner 0 of the cell and the cell's extent
+	ev2 := newEval(ctx, ctor, "Evaluate", "evaluate", kernel, "Get", "get", "evalRoutines")
+	ev2.evalRoot(march)
+	cs := eventsOf(ev2, "."+ctor)
+	ks := eventsOf(ev2, "."+kernel)
+	if len(cs) != 1 || len(ks) != 1 || len(cs[0].Args) < 2 || len(ks[0].Args) < 1 {
+		r.undecided(rule, march.Name(), march.Pos(), "constructor or kernel call not found")
+		return
+	}
+	base, inc := pointTerms(cs[0].Args[0], dim), pointTerms(cs[0].Args[1], dim)
+	corners, _ := ks[0].Args[0].(*Agg)
+	if base == nil || inc == nil || corners == nil || len(corners.Elems) != 1<<dim {
+		r.undecided(rule, march.Name(), march.Pos(), "constructor arguments or kernel corners are not vectors")
+		return
+	}
+	c0 := pointTerms(corners.Elems[0], dim)
+	if c0 == nil {
+		r.undecided(rule, march.Name(), march.Pos(), "corner 0 is not a vector of scalars")
+		return
+	}
+	okB, detailB := true, ""
+	for i, ax := range axes {
+		o, d := resolveRec(c0[i], 0)
+		if d == nil || !equalRat(o, base[i]) || !equalRat(d, inc[i]) {
+			okB = false
+			ds := "-"
+			if d != nil {
+				ds = shortKey(d.Key(), 80)
+			}
+			detailB += fmt.Sprintf(" axis %s: corner 0 starts at %s and advances by %s, the cache was built with %s and %s;", ax, shortKey(o.Key(), 80), ds, shortKey(base[i].Key(), 80), shortKey(inc[i].Key(), 80))
+		}
+	}
+	for k := 1; k < len(corners.Elems); k++ {
+		ck := pointTerms(corners.Elems[k], dim)
+		if ck == nil {
+			okB = false
+			detailB += fmt.Sprintf(" corner %d is not a vector of scalars;", k)
+			continue
+		}
+		for i, ax := range axes {
+			bit, d := diffBit(ck[i], c0[i])
+			if bit == 1 && !equalRat(d, inc[i]) {
+				okB = false
+				detailB += fmt.Sprintf(" corner %d axis %s is %s beyond corner 0, the lattice step is %s;", k, ax, shortKey(d.Key(), 80), shortKey(inc[i].Key(), 80))
+			}
+		}
+	}
+	r.check(rule, march.Name()+"|cell-corners-on-the-sampled-lattice", ks[0].Pos, okB, "corner 0 of cell (x,y,z) is base + (x,y,z)∘inc and the cell spans inc, with the base and inc the layer cache was built with;"+detailB)
 }
